@@ -1050,6 +1050,30 @@ class Evaluator:
                            "bitand": lambda: x & y, "bitor": lambda: x | y, "bitxor": lambda: x ^ y}.get(opn)
                     if fn_:
                         return Struct([fn_() & ((1 << bits) - 1)])
+        # HashSet / HashMap as the list of their items / (key, value) pairs
+        if ("HashSet" in sh0 or "HashMap" in sh0) and sh0.startswith("std::collections::"):
+            last = short.split("::")[-1]
+            if last in ("new", "with_capacity", "default") and len(args) <= 1:
+                return BufView([])
+            if isinstance(a0, BufView) and a0.off == 0 and a0.n == len(a0.buf):
+                if "HashSet" in sh0 and last == "insert" and len(args) == 2:
+                    if args[1] in a0.buf:
+                        return 0
+                    a0.buf.append(args[1])
+                    a0.n += 1
+                    return 1
+                if "HashMap" in sh0 and last == "insert" and len(args) == 3:
+                    for i, kv in enumerate(a0.buf):
+                        if kv[0] == args[1]:
+                            a0.buf[i] = (args[1], args[2])
+                            return Enum("core::option::Option", 1, "Some", [kv[1]])
+                    a0.buf.append((args[1], args[2]))
+                    a0.n += 1
+                    return Enum("core::option::Option", 0, "None", [])
+                if last == "len" and len(args) == 1:
+                    return a0.n
+                if "HashSet" in sh0 and last == "contains" and len(args) == 2:
+                    return int(self.deref_val(args[1]) in a0.buf)
         # a growable vector is a BufView over its own list (off 0, n == len(buf))
         if sh0 == "alloc::vec::Vec" and short.split("::")[-1] in ("new", "with_capacity") and len(args) <= 1:
             return BufView([])
